@@ -1,4 +1,1416 @@
 package main
 
-// oraclePack: independent oracles on real produced archives (filled in by the tar/canary streams).
-func oraclePack(c *PackCase, jr *JobResult) []Problem { return nil }
+import (
+	"archive/tar"
+	"bytes"
+	"crypto/sha256"
+	"encoding/hex"
+	"fmt"
+	"hash/fnv"
+	"io"
+	"os"
+	"path"
+	"path/filepath"
+	"sort"
+	"strings"
+
+	"github.com/moby/patternmatcher"
+	"golang.org/x/sys/unix"
+)
+
+// Independent oracles on the archives the REAL producer code wrote (TarWithOptions / chrootarchive.Tar):
+//
+//	C09  canonical, self-consistent, reproducible stream (clauses a..h below)
+//	C08  selection = fresh per-chain evaluation of the patterns over the source tree (set and multiplicity)
+//	C07  chrooted tar: every name/attribute/body stems from the inside-only view of the root
+//
+// Nothing here looks at the Lean model's answer. The reference is a small kernel-style resolver over c.Nodes
+// (symlinks, "..", trailing slashes, jail root) plus a top-down recursive walk that evaluates the patterns
+// afresh for every path (no incremental ancestor stack).
+
+// packOracleStats: per-clause distribution, merged into the Result by runPack.
+var pkDebug = os.Getenv("PK_DEBUG") != ""
+
+var packOracleStats = map[string]int{}
+
+func pkCount(k string) { packOracleStats[k]++ }
+
+func pkProb(format string, a ...interface{}) Problem {
+	return Problem{Kind: "oracle", Stream: "pack", Msg: truncate(fmt.Sprintf(format, a...), 700)}
+}
+
+// pkSigOwner: a known-finding signature is only reported by the stream whose property owns it (the check
+// script filters known findings by property); elsewhere it is counted and dropped.
+func pkSigReportable(family, sig string) bool {
+	switch sig {
+	case "D13", "D19", "D21": // C08
+		return family == "select"
+	case "D14", "D20", "D22": // C09
+		return family == "mixed"
+	}
+	return true
+}
+
+// ---------------------------------------------------------------- view of the world + path resolution
+
+type pkView struct {
+	nodes    map[string]*Node    // view path ("/" = view root) -> object
+	kids     map[string][]string // directory -> sorted child names
+	implicit map[string]bool     // directories the case does not describe (attributes unknown)
+	open     bool                // plain mode: the real "/" holds more than the case describes
+	unknown  bool                // a resolution touched something the case does not describe
+	followed int                 // symlinks followed by the last resolve (distribution only)
+	absolute bool                // ... one of them absolute
+}
+
+// pkBuildView: plain tar sees the whole world; chrooted tar sees only what lies under c.Root, with the root as "/".
+// Returns nil when the root cannot become a jail (missing or not a directory).
+func pkBuildView(c *PackCase) *pkView {
+	v := &pkView{nodes: map[string]*Node{}, kids: map[string][]string{}, implicit: map[string]bool{}}
+	if c.Op == "tar-chroot" {
+		root := filepath.Clean(c.Root)
+		var rn *Node
+		for i := range c.Nodes {
+			if c.Nodes[i].Path == root {
+				rn = &c.Nodes[i]
+			}
+		}
+		if rn == nil || rn.Kind != 'd' {
+			return nil
+		}
+		v.nodes["/"] = rn
+		for i := range c.Nodes {
+			n := &c.Nodes[i]
+			if strings.HasPrefix(n.Path, root+"/") {
+				v.nodes[n.Path[len(root):]] = n
+			}
+		}
+	} else {
+		v.open = true
+		v.nodes["/"] = &Node{Path: "/", Kind: 'd'}
+		v.implicit["/"] = true
+		for i := range c.Nodes {
+			n := &c.Nodes[i]
+			v.nodes[filepath.Clean(n.Path)] = n
+		}
+	}
+	var ps []string
+	for p := range v.nodes {
+		ps = append(ps, p)
+	}
+	for _, p := range ps {
+		for d := path.Dir(p); d != "/" && d != "."; d = path.Dir(d) {
+			if _, ok := v.nodes[d]; !ok {
+				v.nodes[d] = &Node{Path: d, Kind: 'd'}
+				v.implicit[d] = true
+			}
+		}
+	}
+	for p := range v.nodes {
+		if p != "/" {
+			d := path.Dir(p)
+			v.kids[d] = append(v.kids[d], path.Base(p))
+		}
+	}
+	for d := range v.kids {
+		sort.Strings(v.kids[d])
+	}
+	return v
+}
+
+const (
+	pkOK = iota
+	pkENOENT
+	pkENOTDIR
+	pkELOOP
+)
+
+// resolve walks p like the kernel does inside the view: every component but the last follows symlinks, the last
+// one only when followLast or when something (a slash, ".") comes after it; absolute link targets restart at the
+// view root; ".." at the root stays at the root. Relative paths start at "/" (cwd of the arena and of the jail).
+func (v *pkView) resolve(p string, followLast bool) (string, *Node, int) {
+	if p == "" {
+		return "", nil, pkENOENT
+	}
+	cur := "/"
+	rest := strings.Split(p, "/")
+	links := 0
+	v.followed, v.absolute = 0, false
+	defer func() { v.followed = links }()
+	for len(rest) > 0 {
+		comp := rest[0]
+		rest = rest[1:]
+		cn := v.nodes[cur]
+		if cn == nil || cn.Kind != 'd' {
+			return "", nil, pkENOTDIR
+		}
+		switch comp {
+		case "", ".":
+			continue
+		case "..":
+			cur = path.Dir(cur)
+			continue
+		}
+		child := path.Join(cur, comp)
+		n := v.nodes[child]
+		if n == nil {
+			if v.open && cur == "/" {
+				v.unknown = true
+			}
+			return "", nil, pkENOENT
+		}
+		if n.Kind == 's' && (len(rest) > 0 || followLast) {
+			links++
+			if links > 40 {
+				return "", nil, pkELOOP
+			}
+			if n.Target == "" {
+				return "", nil, pkENOENT
+			}
+			t := strings.Split(n.Target, "/")
+			if strings.HasPrefix(n.Target, "/") {
+				cur = "/"
+				v.absolute = true
+			}
+			rest = append(append([]string{}, t...), rest...)
+			continue
+		}
+		cur = child
+	}
+	if v.open && cur == "/" {
+		v.unknown = true
+	}
+	return cur, v.nodes[cur], pkOK
+}
+
+type pkDirent struct {
+	name  string
+	isDir bool
+}
+
+func (v *pkView) readDir(p string) ([]pkDirent, int) {
+	rp, n, e := v.resolve(p, true)
+	if e != pkOK {
+		return nil, e
+	}
+	if n.Kind != 'd' {
+		return nil, pkENOTDIR
+	}
+	var out []pkDirent
+	for _, k := range v.kids[rp] {
+		out = append(out, pkDirent{k, v.nodes[path.Join(rp, k)].Kind == 'd'})
+	}
+	return out, pkOK
+}
+
+// ---------------------------------------------------------------- reference selection
+
+type pkExp struct {
+	Name   string // archived name (after rebase, canonical trailing slash)
+	Rel    string // name before the rebase, as the walk names it
+	Clean  string // Rel without the "./" that IncludeSourceDir adds
+	Inc    int    // index of the include that emitted it
+	VPath  string // resolved object (view path)
+	Node   *Node
+	IsRoot bool // the object is the view root itself
+	Wh     bool // overlay format: a 0:0 character device is archived as the empty regular file ".wh.<name>"
+	Marker bool // overlay format: the empty ".wh..wh..opq" file that follows the entry of an opaque directory
+}
+
+// conv: the archived name is not the walked name because the overlay whiteout conversion made it
+func (e *pkExp) conv() bool { return e.Wh || e.Marker }
+
+type pkRef struct {
+	jail      bool // chroot: the root can become a jail
+	exp       []pkExp
+	unknown   bool // reference not computable from the case (resolution left the described world, odd chain)
+	rootRels  []string
+	includes  []string
+	excluded  map[string]bool // clean rels the fresh evaluation excludes (not verbatim)
+	underPrun map[string]bool // clean rels skipped because an ancestor was pruned (never visited)
+	visited   []string        // every string handed to the matcher
+	reach     map[string]bool // archived-form names of every path the walks can reach, selected or not
+	disagree  int             // fresh chain evaluation vs MatchesOrParentMatches
+	patN      int
+}
+
+type pkPat struct {
+	text string
+	excl bool
+}
+
+func pkPatterns(raw []string) []pkPat {
+	var out []pkPat
+	for _, p := range raw {
+		p = strings.TrimSpace(p)
+		if p == "" {
+			continue
+		}
+		p = filepath.Clean(p)
+		pp := pkPat{text: p}
+		if p[0] == '!' {
+			pp.excl = true
+			pp.text = p[1:]
+		}
+		out = append(out, pp)
+	}
+	return out
+}
+
+func pkMapID(id int, m []IDRange) (int, bool) {
+	if len(m) == 0 {
+		return id, true
+	}
+	for _, r := range m {
+		if id >= r.H && id <= r.H+r.N-1 {
+			return r.C + (id - r.H), true
+		}
+	}
+	return -1, false
+}
+
+// pkOwner: the ids an entry for n named name must carry; ok=false when the ID map cannot express them
+// (such an object cannot be archived and is left out).
+func pkOwner(c *PackCase, n *Node, name string) (int, int, bool) {
+	uid, gid := n.Uid, n.Gid
+	if len(c.UidMap)+len(c.GidMap) > 0 {
+		whiteoutDev := n.Kind == 'c' && n.Maj == 0 && n.Min == 0
+		if !whiteoutDev && !strings.HasPrefix(filepath.Base(name), ".wh.") {
+			u, ok1 := pkMapID(uid, c.UidMap)
+			g, ok2 := pkMapID(gid, c.GidMap)
+			if !ok1 || !ok2 {
+				return 0, 0, false
+			}
+			uid, gid = u, g
+		}
+	}
+	if c.Chown != nil {
+		uid, gid = c.Chown[0], c.Chown[1]
+	}
+	return uid, gid, true
+}
+
+// pkMode selects the reference. The zero value is the PROPERTY's reference: every path judged by the whole-path
+// evaluation (a pattern applies when it matches the path or any of its ancestors; the last applying pattern wins),
+// on clean names, each source path once. The deviations reproduce, one by one, what known findings do, and are
+// only used to recognise those findings exactly:
+//
+//	chain   - per-chain evaluation with MatchesUsingParentResults from the zero state (a pattern the matcher
+//	          skipped at an ancestor is not carried to the descendants: D19)
+//	dot     - the matcher sees the "./"-prefixed names of IncludeSourceDir + include "." (D13); implies chain
+//	seenRaw - "once" is keyed by the spelled name, so "./a" and "a" count as two paths (D21)
+type pkMode struct{ chain, dot, seenRaw bool }
+
+func pkReference(c *PackCase, v *pkView, mode pkMode) *pkRef {
+	dotMatch := mode.dot
+	ref := &pkRef{jail: v != nil, excluded: map[string]bool{}, underPrun: map[string]bool{}, reach: map[string]bool{}}
+	if v == nil {
+		return ref
+	}
+	pm, err := patternmatcher.New(c.Patterns)
+	if err != nil {
+		ref.unknown = true
+		return ref
+	}
+	pats := pkPatterns(c.Patterns)
+	ref.patN = len(pats)
+	hasExcl := false
+	for _, p := range pats {
+		if p.excl {
+			hasExcl = true
+		}
+	}
+	// judge: is p excluded? The property's answer is the whole-path evaluation, afresh for every path. The ancestor
+	// stack (popped by name prefix, fed to MatchesUsingParentResults) is what the pinned code does; it is evaluated
+	// alongside only to recognise D19/D13 exactly and to count how often the two differ.
+	var stack []string
+	var infos []patternmatcher.MatchInfo
+	judge := func(p string, isDir bool) bool {
+		whole, err := pm.MatchesOrParentMatches(p)
+		if err != nil {
+			ref.unknown = true
+			return false
+		}
+		for len(stack) > 0 && !strings.HasPrefix(p, stack[len(stack)-1]+"/") {
+			stack = stack[:len(stack)-1]
+			infos = infos[:len(infos)-1]
+		}
+		info := patternmatcher.MatchInfo{}
+		if len(infos) > 0 {
+			info = infos[len(infos)-1]
+		}
+		m, mi, err := pm.MatchesUsingParentResults(p, info)
+		if err != nil {
+			ref.unknown = true
+			return false
+		}
+		if isDir {
+			stack = append(stack, p)
+			infos = append(infos, mi)
+		}
+		if m != whole {
+			ref.disagree++
+			if pkDebug {
+				fmt.Fprintf(os.Stderr, "DISAGREE pats=%q p=%q stack=%v whole=%v inc=%q\n", c.Patterns, p, m, whole, c.Includes)
+			}
+		}
+		if mode.chain || mode.dot {
+			return m
+		}
+		return whole
+	}
+	pruned := func(clean string) bool {
+		if !hasExcl {
+			return true
+		}
+		for _, p := range pats {
+			if p.excl && strings.HasPrefix(p.text+"/", clean+"/") {
+				return false
+			}
+		}
+		return true
+	}
+
+	src := c.Src
+	if c.Op == "tar-chroot" {
+		rel, err := filepath.Rel(c.Root, c.Src)
+		if err != nil {
+			ref.jail = false
+			return ref
+		}
+		in := "/" + rel
+		if rel == "." {
+			in = "/"
+		}
+		if strings.HasSuffix(c.Src, "/") && !strings.HasSuffix(in, "/") {
+			in += "/"
+		}
+		src = in
+	}
+	_, sn, e := v.resolve(src, false)
+	if e != pkOK {
+		ref.unknown = v.unknown
+		return ref
+	}
+	includes := append([]string(nil), c.Includes...)
+	if sn.Kind != 'd' {
+		cl := filepath.Clean(src)
+		if filepath.Base(src) == "." {
+			cl += "/."
+		}
+		src = filepath.Dir(cl)
+		includes = []string{filepath.Base(cl)}
+	}
+	if len(includes) == 0 {
+		includes = []string{"."}
+	}
+	ref.includes = includes
+	seen := map[string]bool{}
+	for idx, inc := range includes {
+		rebase := c.Rebase[inc]
+		walkRoot := strings.TrimSuffix(src, "/") + "/" + inc
+		rr, _ := filepath.Rel(src, walkRoot)
+		ref.rootRels = append(ref.rootRels, rr)
+		_, rn, e := v.resolve(walkRoot, false)
+		if e != pkOK {
+			continue
+		}
+		stack, infos = nil, nil
+		var rec func(fp string, isDir bool, underPruned bool)
+		rec = func(fp string, isDir bool, underPruned bool) {
+			rel, err := filepath.Rel(src, fp)
+			if err != nil {
+				ref.unknown = true
+				return
+			}
+			if !(rel == "." && isDir && !c.ISD) {
+				clean := rel
+				if c.ISD && inc == "." && rel != "." {
+					rel = "./" + rel
+				}
+				if dotMatch {
+					clean = rel
+				}
+				ref.reach[strings.TrimSuffix(pkRebased(rel, inc, rebase), "/")] = true
+				key := rel
+				if !mode.seenRaw {
+					key = strings.TrimPrefix(rel, "./")
+				}
+				if underPruned {
+					ref.underPrun[clean] = true
+				} else if inc == rel {
+					// an include given verbatim is archived whatever the patterns say, and is not an evaluated ancestor
+					if !seen[key] {
+						seen[key] = true
+						pkEmit(c, v, ref, fp, rel, clean, inc, rebase, idx)
+					}
+				} else {
+					ref.visited = append(ref.visited, clean)
+					ex := judge(clean, isDir)
+					if ex {
+						ref.excluded[clean] = true
+						if isDir && pruned(clean) {
+							underPruned = true
+						}
+					} else if !seen[key] {
+						seen[key] = true
+						pkEmit(c, v, ref, fp, rel, clean, inc, rebase, idx)
+					}
+				}
+			}
+			if !isDir {
+				return
+			}
+			ds, e := v.readDir(fp)
+			if e != pkOK {
+				return
+			}
+			for _, d := range ds {
+				rec(filepath.Join(fp, d.name), d.isDir, underPruned)
+			}
+		}
+		rec(walkRoot, rn.Kind == 'd', false)
+	}
+	if v.unknown {
+		ref.unknown = true
+	}
+	return ref
+}
+
+// pkRebased: a rebased include is renamed in its leading occurrence only.
+func pkRebased(rel, inc, rebase string) string {
+	if rebase == "" {
+		return rel
+	}
+	repl := rebase
+	if rebase == "/" {
+		repl = ""
+	}
+	if rel == inc || strings.HasPrefix(rel, inc+"/") {
+		return repl + rel[len(inc):]
+	}
+	return rel
+}
+
+func pkEmit(c *PackCase, v *pkView, ref *pkRef, fp, rel, clean, inc, rebase string, idx int) {
+	vp, n, e := v.resolve(fp, false)
+	if e != pkOK {
+		return
+	}
+	name := pkRebased(rel, inc, rebase)
+	if n.Kind == 'd' && !strings.HasSuffix(name, "/") {
+		name += "/"
+	}
+	if _, _, ok := pkOwner(c, n, name); !ok {
+		return
+	}
+	wh := false
+	if c.Overlay && n.Kind == 'c' && n.Maj == 0 && n.Min == 0 {
+		dir, file := filepath.Split(name)
+		name = filepath.Join(dir, ".wh."+file)
+		wh = true
+		ref.reach[name] = true
+	}
+	ref.exp = append(ref.exp, pkExp{Name: name, Rel: rel, Clean: clean, Inc: idx, VPath: vp, Node: n, IsRoot: vp == "/", Wh: wh})
+	if c.Overlay && n.Kind == 'd' && n.Opq {
+		mname := filepath.Join(name, ".wh..wh..opq")
+		ref.reach[mname] = true
+		ref.exp = append(ref.exp, pkExp{Name: mname, Rel: rel, Clean: clean, Inc: idx, VPath: vp, Node: n, IsRoot: vp == "/", Marker: true})
+	}
+}
+
+// pkWalkStrings: the strings a walk of this case hands to the matcher, with their component prefixes (used by the
+// case renderer to make the per-pattern hit table of the model cover them).
+func pkWalkStrings(c *PackCase) []string {
+	set := map[string]bool{}
+	for _, m := range []pkMode{{}, {chain: true}, {dot: true}} {
+		v := pkBuildView(c)
+		if v == nil {
+			continue
+		}
+		for _, s := range pkReference(c, v, m).visited {
+			cs := strings.Split(s, "/")
+			for i := 1; i <= len(cs); i++ {
+				set[strings.Join(cs[:i], "/")] = true
+			}
+		}
+	}
+	var out []string
+	for s := range set {
+		if s != "" {
+			out = append(out, s)
+		}
+	}
+	sort.Strings(out)
+	return out
+}
+
+// ---------------------------------------------------------------- the oracle
+
+func pkTypOK(h *tar.Header, n *Node) bool {
+	switch n.Kind {
+	case 'd':
+		return h.Typeflag == tar.TypeDir
+	case 'r':
+		return h.Typeflag == tar.TypeReg
+	case 's':
+		return h.Typeflag == tar.TypeSymlink
+	case 'c':
+		return h.Typeflag == tar.TypeChar
+	case 'b':
+		return h.Typeflag == tar.TypeBlock
+	case 'f':
+		return h.Typeflag == tar.TypeFifo
+	}
+	return false
+}
+
+func pkAllZero(b []byte) bool {
+	for _, x := range b {
+		if x != 0 {
+			return false
+		}
+	}
+	return true
+}
+
+type pkCountReader struct {
+	r io.Reader
+	n int64
+}
+
+func (c *pkCountReader) Read(p []byte) (int, error) {
+	n, err := c.r.Read(p)
+	c.n += int64(n)
+	return n, err
+}
+
+func oraclePack(c *PackCase, jr *JobResult) []Problem {
+	var out []Problem
+	add := func(p Problem) { out = append(out, p) }
+	if c.Overlay {
+		pkCount("opt:overlay-whiteout-format")
+	}
+	v := pkBuildView(c)
+	ref := pkReference(c, v, pkMode{})
+
+	// ---- outcome
+	if c.Op == "tar-chroot" && !ref.jail {
+		pkCount("c07:root-not-a-jail")
+		if jr.Out == "ok" {
+			if _, hs, _ := parseTarStream(jr.Archive64); len(hs) > 0 {
+				add(pkProb("C07: root %q cannot become a jail (missing or not a directory) yet %d entries were archived, first %q", c.Root, len(hs), hs[0].Name))
+			}
+		}
+		return out
+	}
+	if jr.Out != "ok" {
+		// plain tar only fails on a bad pattern (never generated); a jailed tar with a usable root must not fail:
+		// its outcome may depend only on what is inside the root
+		if c.Op == "tar-chroot" {
+			add(pkProb("C07: root is a directory, the call failed (%s): the outcome must be that of the inside-only view (%d entries expected)", truncate(jr.Err, 120), len(ref.exp)))
+		} else {
+			add(pkProb("C09: producer failed on a valid option set: %s", truncate(jr.Err, 120)))
+		}
+		return out
+	}
+	b := jr.Archive64
+
+	// ---- C09 (a): well-formed, properly terminated
+	cr := &pkCountReader{r: bytes.NewReader(b)}
+	tr := tar.NewReader(cr)
+	var hs []*tar.Header
+	var bodies []string
+	for {
+		h, err := tr.Next()
+		if err == io.EOF {
+			break
+		}
+		if err != nil {
+			add(pkProb("C09: (a) stream not well-formed after %d entries: %v", len(hs), err))
+			return out
+		}
+		body, err := io.ReadAll(tr)
+		if err != nil {
+			add(pkProb("C09: (a)/(f) entry %q: body shorter than declared size %d: %v", h.Name, h.Size, err))
+			return out
+		}
+		hs = append(hs, h)
+		bodies = append(bodies, string(body))
+	}
+	pkCount("c09:parsed")
+	if len(b)%512 != 0 || len(b) < 1024 || !pkAllZero(b[len(b)-1024:]) {
+		add(pkProb("C09: (a) stream of %d bytes does not end with the two zero blocks on a block boundary", len(b)))
+	} else if !pkAllZero(b[cr.n:]) {
+		add(pkProb("C09: (a) non-zero bytes after the end-of-archive marker"))
+	}
+	if len(hs) >= 2 {
+		pkCount("c09:entries>=2")
+	}
+	if len(hs) == 0 {
+		pkCount("c09:empty-archive")
+		switch {
+		case ref.includes == nil:
+			pkCount("empty:source-missing")
+		case len(ref.visited) == 0:
+			pkCount("empty:includes-missing")
+			if pkDebug {
+				fmt.Fprintf(os.Stderr, "INCMISSING src=%q inc=%q\n", c.Src, c.Includes)
+			}
+		default:
+			pkCount("empty:all-excluded-or-unarchivable")
+		}
+	}
+
+	// ---- C08: set and multiplicity of names against the property's reference; a mismatch that one of the
+	// known deviations explains EXACTLY carries that finding's signature
+	gotByName := map[string][]int{}
+	for i, h := range hs {
+		gotByName[h.Name] = append(gotByName[h.Name], i)
+	}
+	sameNames := func(r *pkRef) bool {
+		want := map[string]int{}
+		for _, e := range r.exp {
+			want[e.Name]++
+		}
+		if len(want) != len(gotByName) {
+			return false
+		}
+		for name, gi := range gotByName {
+			if want[name] != len(gi) {
+				return false
+			}
+		}
+		return true
+	}
+	refOK := !ref.unknown
+	if !refOK {
+		pkCount("ref:unknown")
+	}
+	prop := ref // the property's reference (ref may be replaced below by the deviation that explains the archive)
+	if refOK {
+		pkCount("c08:compared")
+		if ref.patN > 0 {
+			pkCount("c08:with-patterns")
+		}
+		if len(ref.excluded) > 0 {
+			pkCount("c08:some-path-excluded")
+		}
+		if len(ref.underPrun) > 0 {
+			pkCount("c08:some-dir-pruned")
+		}
+		reincl, deepReincl := false, false
+		for _, e := range ref.exp {
+			for a := path.Dir(e.Clean); a != "." && a != "/" && a != ""; a = path.Dir(a) {
+				if ref.excluded[a] {
+					reincl = true
+					if strings.Count(e.Clean, "/") >= 2 {
+						deepReincl = true
+					}
+				}
+			}
+		}
+		if reincl {
+			pkCount("c08:re-included-under-excluded-dir")
+		}
+		if deepReincl {
+			pkCount("c08:re-included-two-levels-down")
+		}
+		if len(ref.includes) > 1 {
+			pkCount("c08:several-includes")
+		}
+		if len(c.Rebase) > 0 {
+			pkCount("c08:rebase")
+		}
+		if ref.disagree > 0 {
+			pkCount("c08:chain-vs-whole-path-evaluation-differ")
+		}
+		if !sameNames(ref) {
+			sig, how := "", ""
+			hasDot := false
+			for _, inc := range ref.includes {
+				if inc == "." {
+					hasDot = true
+				}
+			}
+			// try the known deviations, fewest first
+			type dev struct {
+				m   pkMode
+				sig string
+				how string
+			}
+			devs := []dev{
+				{pkMode{chain: true}, "D19", "the matcher does not carry to descendants a pattern it skipped at the ancestor"},
+				{pkMode{dot: true}, "D13", "names carry './' before matching"},
+				{pkMode{seenRaw: true}, "D21", "'./x' and 'x' are treated as two paths"},
+				{pkMode{dot: true, seenRaw: true}, "D13", "names carry './' before matching, and './x' and 'x' are treated as two paths"},
+				{pkMode{chain: true, seenRaw: true}, "D21", "'./x' and 'x' are treated as two paths, and a skipped pattern is not carried"},
+			}
+			for _, d := range devs {
+				if d.m.dot && !(c.ISD && hasDot && ref.patN > 0) {
+					continue
+				}
+				if d.m.seenRaw && !(c.ISD && hasDot && len(ref.includes) > 1) {
+					continue
+				}
+				if d.m.chain && ref.patN == 0 {
+					continue
+				}
+				r2 := pkReference(c, pkBuildView(c), d.m)
+				if !r2.unknown && sameNames(r2) {
+					sig, how = d.sig, d.how
+					ref = r2
+					break
+				}
+			}
+			expN := map[string]int{}
+			for _, e := range ref.exp {
+				expN[e.Name]++
+			}
+			var extra, missing, mult []string
+			if sig != "" {
+				// describe against the property's reference
+				r0 := pkReference(c, pkBuildView(c), pkMode{})
+				expN = map[string]int{}
+				for _, e := range r0.exp {
+					expN[e.Name]++
+				}
+			}
+			for name, gi := range gotByName {
+				if expN[name] == 0 {
+					extra = append(extra, name)
+				} else if len(gi) != expN[name] {
+					mult = append(mult, fmt.Sprintf("%q x%d (expected x%d)", name, len(gi), expN[name]))
+				}
+			}
+			for name := range expN {
+				if len(gotByName[name]) == 0 {
+					missing = append(missing, name)
+				}
+			}
+			sort.Strings(extra)
+			sort.Strings(missing)
+			sort.Strings(mult)
+			var parts []string
+			if len(extra) > 0 {
+				why := "not selected by the includes"
+				for _, e := range extra {
+					cl := strings.TrimSuffix(strings.TrimPrefix(e, "./"), "/")
+					if prop.excluded[cl] {
+						why = "excluded by the patterns"
+					} else if prop.underPrun[cl] {
+						why = "beneath an excluded directory that no '!' pattern names"
+					}
+				}
+				parts = append(parts, fmt.Sprintf("contains %d path(s) it must not %q (%s)", len(extra), pkHead(extra), why))
+			}
+			if len(missing) > 0 {
+				parts = append(parts, fmt.Sprintf("omits %d path(s) %q that are under the includes and not excluded", len(missing), pkHead(missing)))
+			}
+			if len(mult) > 0 {
+				parts = append(parts, "multiplicity: "+strings.Join(pkHead(mult), ", "))
+			}
+			p := pkProb("C08: archive %s; inc=%q isd=%v pats=%q rebase=%v", strings.Join(parts, "; "), c.Includes, c.ISD, c.Patterns, c.Rebase)
+			if sig != "" {
+				p.Sig = sig
+				p.Msg = truncate(p.Msg+" ["+sig+": "+how+"]", 800)
+				pkCount("known:" + sig)
+			}
+			add(p)
+		}
+	}
+
+	// ---- map archive entries to the reference (k-th occurrence of a name <-> k-th expected occurrence)
+	expByName := map[string][]int{}
+	for i, e := range ref.exp {
+		expByName[e.Name] = append(expByName[e.Name], i)
+	}
+	expOf := make([]*pkExp, len(hs)) // nil when unmapped
+	if refOK {
+		for name, gi := range gotByName {
+			ei := expByName[name]
+			for k := range gi {
+				if k < len(ei) {
+					expOf[gi[k]] = &ref.exp[ei[k]]
+				}
+			}
+		}
+	}
+
+	// ---- C09 (b): each name at most once, unless the rebase map sends two different source paths to one name
+	for name, gi := range gotByName {
+		if len(gi) < 2 {
+			continue
+		}
+		if refOK {
+			rels := map[string]bool{}
+			wh := false
+			for _, i := range expByName[name] {
+				rels[ref.exp[i].Rel] = true
+				wh = wh || ref.exp[i].conv()
+			}
+			if len(rels) >= 2 && len(c.Rebase) > 0 && len(gi) <= len(rels) {
+				pkCount("c09:dup-by-rebase-collision")
+				continue
+			}
+			if len(rels) >= 2 && wh && len(gi) <= len(rels) {
+				// overlay format: device "x" becomes ".wh.x", and the tree also holds a file of that very name
+				pkCount("c09:dup-by-whiteout-conversion")
+				continue
+			}
+		} else if len(c.Rebase) > 0 {
+			continue
+		}
+		add(pkProb("C09: (b) name %q appears %d times; inc=%q rebase=%v", name, len(gi), c.Includes, c.Rebase))
+		break
+	}
+
+	// ---- C09 (c): relative, slash-separated, no "//", trailing "/" exactly on directories
+	for i, h := range hs {
+		name := h.Name
+		rebasedToRoot := false
+		if e := expOf[i]; e != nil && e.Name != e.Rel && c.Rebase[ref.includes[e.Inc]] == "/" {
+			rebasedToRoot = true
+		} else if expOf[i] == nil {
+			for _, r := range c.Rebase {
+				if r == "/" {
+					rebasedToRoot = true
+				}
+			}
+		}
+		if strings.HasPrefix(name, "/") && !rebasedToRoot {
+			add(pkProb("C09: (c) name %q is not relative", name))
+			break
+		}
+		if rebasedToRoot {
+			pkCount("c09:name-under-rebase-to-slash")
+		}
+		if strings.Contains(name, "//") || strings.Contains(name, "\\") {
+			add(pkProb("C09: (c) name %q has an empty component or a backslash", name))
+			break
+		}
+		if name == "" && !rebasedToRoot {
+			add(pkProb("C09: (c) empty name"))
+			break
+		}
+		if (h.Typeflag == tar.TypeDir) != strings.HasSuffix(name, "/") {
+			add(pkProb("C09: (c) trailing slash of %q does not fit its type %s", name, typName(h.Typeflag)))
+			break
+		}
+		if e := expOf[i]; e != nil && !e.Marker {
+			if (e.Node.Kind == 'd') != (h.Typeflag == tar.TypeDir) {
+				add(pkProb("C09: (c) %q: directory-ness differs from the source object (%c)", name, e.Node.Kind))
+				break
+			}
+		}
+	}
+
+	// ---- C09 (d): a directory's entry precedes the entries beneath it
+	//   D14: an include listed before one of its proper ancestors (includes are walked in the order given)
+	//   D20: a directory the patterns exclude, listed verbatim as an include after an include above it whose
+	//        walk already emitted re-included content of that directory
+	{
+		found := map[string]string{}
+		for i, h := range hs {
+			if h.Typeflag != tar.TypeDir || !strings.HasSuffix(h.Name, "/") {
+				continue
+			}
+			for j := 0; j < i; j++ {
+				if hs[j].Name == h.Name || !strings.HasPrefix(hs[j].Name, h.Name) {
+					continue
+				}
+				// entry j lies beneath directory entry i but comes first
+				kind := "bad"
+				ed, ee := expOf[i], expOf[j]
+				if ed != nil && ee != nil {
+					renamed := (strings.TrimSuffix(ed.Name, "/") != ed.Rel && !ed.conv()) || (strings.TrimSuffix(ee.Name, "/") != ee.Rel && !ee.conv())
+					switch {
+					case renamed && (ee.Inc != ed.Inc || !pkProperDescendant(ee.Clean, ed.Clean)):
+						// the rebase map moved the names of one include among the names of another
+						pkCount("c09:order-skip-rebase-collision")
+						continue
+					case ee.Inc < ed.Inc && pkProperDescendant(ref.rootRels[ee.Inc], ref.rootRels[ed.Inc]):
+						kind = "D14"
+					case ee.Inc < ed.Inc && ed.Rel == ref.includes[ed.Inc] && ref.excluded[ed.Clean]:
+						kind = "D20"
+					case pkQuirkOrder(c, prop, hs, h.Name, hs[j].Name):
+						// the directory was judged differently in two walks (D19): the property's reference has it first
+						kind = "D19"
+					}
+				} else if !refOK {
+					for p := range c.Includes {
+						for q := p + 1; q < len(c.Includes); q++ {
+							if pkProperDescendant(filepath.Clean(c.Includes[p]), filepath.Clean(c.Includes[q])) {
+								kind = "D14"
+							}
+						}
+					}
+				}
+				if found[kind] == "" {
+					found[kind] = fmt.Sprintf("directory entry %q (#%d) follows %q (#%d) which lies beneath it; inc=%q pats=%q", h.Name, i, hs[j].Name, j, c.Includes, c.Patterns)
+				}
+			}
+		}
+		pkCount("c09:order-checked")
+		if m := found["bad"]; m != "" {
+			add(pkProb("C09: (d) %s", m))
+		} else {
+			for _, k := range []string{"D14", "D20", "D19"} {
+				if m := found[k]; m != "" {
+					p := pkProb("C09: (d) %s", m)
+					p.Sig = k
+					pkCount("known:" + k)
+					add(p)
+					break
+				}
+			}
+		}
+	}
+
+	// ---- C09 (e): hard-link entries name an earlier non-link entry for the same inode
+	for i, h := range hs {
+		if h.Typeflag != tar.TypeLink {
+			continue
+		}
+		pkCount("c09:link-entry")
+		tgt := -1
+		for j := 0; j < i; j++ {
+			if hs[j].Name == h.Linkname {
+				tgt = j // the latest earlier entry of that name is what an extractor would link to
+			}
+		}
+		if tgt < 0 {
+			p := pkProb("C09: (e) hard-link entry %q names %q, which is not an earlier entry of the archive", h.Name, h.Linkname)
+			// D22: with an ID map, a name of the inode whose owner cannot be mapped is remembered as the link target
+			// and then left out; a later whiteout-named link of the same inode (exempt from the mapping) points at it
+			if e := expOf[i]; e != nil && len(c.UidMap)+len(c.GidMap) > 0 && strings.HasPrefix(filepath.Base(h.Name), ".wh.") {
+				_, okU := pkMapID(e.Node.Uid, c.UidMap)
+				_, okG := pkMapID(e.Node.Gid, c.GidMap)
+				if (!okU || !okG) && prop.reach[h.Linkname] {
+					p.Sig = "D22"
+					p.Msg += " [D22: the first name's owner is not in the ID map; it was dropped after being remembered as the link target]"
+					pkCount("known:D22")
+				}
+			}
+			add(p)
+			break
+		}
+		if hs[tgt].Typeflag == tar.TypeLink {
+			add(pkProb("C09: (e) hard-link entry %q names %q, which is itself a hard-link entry", h.Name, h.Linkname))
+			break
+		}
+		if el, et := expOf[i], expOf[tgt]; el != nil && et != nil {
+			if el.Node.Group == 0 || el.Node.Group != et.Node.Group {
+				add(pkProb("C09: (e) hard-link entry %q -> %q: source objects %s (group %d) and %s (group %d) are not the same inode", h.Name, h.Linkname, el.Node.Path, el.Node.Group, et.Node.Path, et.Node.Group))
+				break
+			}
+			pkCount("c09:link-checked-inode")
+			if el.Name != el.Rel || et.Name != et.Rel {
+				pkCount("c09:link-with-rebased-name")
+			}
+			if el.Node.Kind != 'r' {
+				pkCount("c09:link-nonregular")
+			}
+		}
+		if h.Size != 0 || bodies[i] != "" {
+			add(pkProb("C09: (f) hard-link entry %q declares size %d / carries %d body bytes", h.Name, h.Size, len(bodies[i])))
+			break
+		}
+	}
+	// groups of 3+ and excluded first names: distribution only
+	if refOK {
+		perGroup := map[int]int{}
+		for i := range hs {
+			if e := expOf[i]; e != nil && e.Node.Group != 0 {
+				perGroup[e.Node.Group]++
+			}
+		}
+		for _, k := range perGroup {
+			if k >= 3 {
+				pkCount("c09:link-group>=3-in-archive")
+				break
+			}
+		}
+		if len(ref.excluded) > 0 {
+			// a group whose lexically first name is excluded while a later one is archived
+			first := map[int]string{}
+			for i := range c.Nodes {
+				n := &c.Nodes[i]
+				if n.Group != 0 {
+					if f, ok := first[n.Group]; !ok || n.Path < f {
+						first[n.Group] = n.Path
+					}
+				}
+			}
+			for i := range hs {
+				if e := expOf[i]; e != nil && e.Node.Group != 0 {
+					arch := false
+					for k := range hs {
+						if x := expOf[k]; x != nil && x.Node.Group == e.Node.Group && x.Node.Path == first[e.Node.Group] {
+							arch = true
+						}
+					}
+					if !arch {
+						pkCount("c09:link-group-first-name-not-archived")
+						break
+					}
+				}
+			}
+		}
+	}
+
+	// ---- C09 (f): declared size = bytes that follow = length of the source content
+	for i, h := range hs {
+		if int64(len(bodies[i])) != h.Size && h.Typeflag != tar.TypeLink {
+			add(pkProb("C09: (f) %q declares %d bytes, %d follow", h.Name, h.Size, len(bodies[i])))
+			break
+		}
+		if h.Typeflag != tar.TypeReg && h.Size != 0 {
+			add(pkProb("C09: (f) non-regular entry %q (%s) declares size %d", h.Name, typName(h.Typeflag), h.Size))
+			break
+		}
+		if e := expOf[i]; e != nil && h.Typeflag == tar.TypeReg && e.Node.Kind == 'r' {
+			pkCount("c09:size-checked")
+			if h.Size != int64(len(e.Node.Data)) || bodies[i] != e.Node.Data {
+				add(pkProb("C09: (f) %q: size %d / body %q differ from the source content (%d bytes)", h.Name, h.Size, truncate(bodies[i], 40), len(e.Node.Data)))
+				break
+			}
+			if len(e.Node.Data) > 0 {
+				pkCount("c09:size-checked-nonempty")
+			}
+		}
+	}
+
+	// ---- C09 (g): whole-second mtime, no atime/ctime, no user/group names
+	for _, h := range hs {
+		if h.ModTime.Nanosecond() != 0 {
+			add(pkProb("C09: (g) %q: modification time %v has a sub-second part", h.Name, h.ModTime.UTC()))
+			break
+		}
+		_, pa := h.PAXRecords["atime"]
+		_, pc := h.PAXRecords["ctime"]
+		if !h.AccessTime.IsZero() || !h.ChangeTime.IsZero() || pa || pc {
+			add(pkProb("C09: (g) %q carries an access/change time", h.Name))
+			break
+		}
+		if h.Uname != "" || h.Gname != "" {
+			add(pkProb("C09: (g) %q carries user/group names %q/%q", h.Name, h.Uname, h.Gname))
+			break
+		}
+	}
+
+	// ---- C09 (h): reproducible
+	if jr.Before != "" || jr.After != "" {
+		pkCount("c09:two-runs")
+		if jr.Before != jr.After {
+			okDiff := false
+			if strings.HasPrefix(jr.After, "DIFF ") && c.Op == "tar-chroot" {
+				// the jail set-up touches the root directory's own mtime; nothing else may differ
+				okDiff = true
+				items := strings.Fields(jr.After)[1:]
+				if len(items) == 0 {
+					okDiff = false
+				}
+				for _, it := range items {
+					f := strings.Split(it, ":")
+					if len(f) != 3 || f[2] != "mtime" {
+						okDiff = false
+						continue
+					}
+					idx := -1
+					fmt.Sscanf(f[0], "%d", &idx)
+					if idx < 0 || idx >= len(hs) || expOf[idx] == nil || !expOf[idx].IsRoot {
+						okDiff = false
+					}
+				}
+			}
+			if okDiff {
+				pkCount("c09:two-runs-differ-only-in-jail-root-mtime")
+			} else {
+				add(pkProb("C09: (h) two runs on the unchanged tree differ: first %s second %s", truncate(jr.Before, 80), truncate(jr.After, 300)))
+			}
+		}
+	}
+
+	// ---- C07: nothing in a jailed archive stems from outside the root
+	if c.Op == "tar-chroot" {
+		pkCount("c07:checked")
+		for i, h := range hs {
+			if strings.Contains(bodies[i], "CANARY") {
+				add(pkProb("C07: body of %q holds the content of an outside object: %q", h.Name, truncate(bodies[i], 40)))
+				break
+			}
+			if (h.Uid >= 42 && h.Uid <= 46 || h.Gid >= 42 && h.Gid <= 46) && c.Chown == nil && len(c.UidMap) == 0 {
+				add(pkProb("C07: %q carries owner %d:%d of an outside object", h.Name, h.Uid, h.Gid))
+				break
+			}
+			if t := h.ModTime.Unix(); t >= 1502 && t <= 1506 {
+				add(pkProb("C07: %q carries the modification time %d of an outside object", h.Name, t))
+				break
+			}
+		}
+		if refOK {
+			for i, h := range hs {
+				e := expOf[i]
+				if e == nil {
+					if ref.reach[strings.TrimSuffix(h.Name, "/")] {
+						continue // exists inside the root: a matter of selection or multiplicity, reported under C08/C09
+					}
+					add(pkProb("C07: entry %q names nothing that is reachable inside the root (source %q, root %q, inc=%q)", h.Name, c.Src, c.Root, c.Includes))
+					break
+				}
+				n := e.Node
+				pkCount("c07:entry-compared")
+				linkOK := h.Typeflag == tar.TypeLink && n.Group != 0 && n.Kind != 'd'
+				if e.conv() {
+					pkCount("c07:overlay-whiteout-entry")
+					if h.Typeflag != tar.TypeReg || h.Size != 0 {
+						add(pkProb("C07: %q: overlay whiteout conversion must yield an empty regular file, got %s size %d", h.Name, typName(h.Typeflag), h.Size))
+						break
+					}
+				} else if !linkOK && !pkTypOK(h, n) {
+					add(pkProb("C07: %q: type %s does not fit the inside object %s (%c)", h.Name, typName(h.Typeflag), n.Path, n.Kind))
+					break
+				}
+				if h.Typeflag == tar.TypeSymlink && h.Linkname != n.Target {
+					add(pkProb("C07: %q: link name %q is not the inside symlink's target %q", h.Name, h.Linkname, n.Target))
+					break
+				}
+				if h.Typeflag == tar.TypeReg && bodies[i] != n.Data {
+					add(pkProb("C07: %q: body %q is not the inside file's content %q", h.Name, truncate(bodies[i], 40), truncate(n.Data, 40)))
+					break
+				}
+				if v.implicit[e.VPath] {
+					continue
+				}
+				ownerName := h.Name
+				if e.Marker {
+					ownerName = strings.TrimSuffix(h.Name, ".wh..wh..opq") // the marker inherits the directory's ids
+				}
+				uid, gid, _ := pkOwner(c, n, ownerName)
+				if h.Uid != uid || h.Gid != gid {
+					add(pkProb("C07: %q: owner %d:%d, the inside object %s gives %d:%d", h.Name, h.Uid, h.Gid, n.Path, uid, gid))
+					break
+				}
+				if mt := pkGroupMtime(c, n); !e.IsRoot && !e.Marker && h.ModTime.Unix() != mt {
+					add(pkProb("C07: %q: mtime %d, the inside object %s has %d", h.Name, h.ModTime.Unix(), n.Path, mt))
+					break
+				}
+			}
+			if len(hs) == 0 && len(ref.exp) == 0 {
+				pkCount("c07:empty-as-expected")
+			}
+			// which arrangements were reached
+			if _, sn, e := v.resolve(strings.TrimSuffix(pkInside(c), "/"), false); e == pkOK && sn != nil && sn.Kind == 's' {
+				pkCount("c07:source-is-symlink")
+			}
+			if _, _, e := v.resolve(pkInside(c)+"/", false); e == pkOK || v.followed > 0 {
+				if v.followed > 0 {
+					pkCount("c07:source-through-link")
+				}
+				if v.followed > 1 {
+					pkCount("c07:source-through-chained-links")
+				}
+				if v.followed > 0 && v.absolute {
+					pkCount("c07:source-through-absolute-link")
+				}
+			}
+			for _, inc := range c.Includes {
+				v.resolve(strings.TrimSuffix(pkInside(c), "/")+"/"+inc+"/", false)
+				if v.followed > 0 {
+					pkCount("c07:include-through-link")
+					if v.followed > 1 {
+						pkCount("c07:include-through-chained-links")
+					}
+					break
+				}
+			}
+			for _, inc := range c.Includes {
+				if strings.Contains(inc, "..") {
+					pkCount("c07:include-with-dotdot")
+					break
+				}
+			}
+			for _, inc := range c.Includes {
+				if strings.HasPrefix(inc, "/") {
+					pkCount("c07:include-absolute")
+					break
+				}
+			}
+			switch pkHostVsInside(c) {
+			case 1:
+				pkCount("c07:source-exists-only-outside")
+			case 2:
+				pkCount("c07:source-exists-only-inside-view")
+			case 3:
+				pkCount("c07:source-names-different-objects-outside-and-inside")
+			}
+		}
+	}
+	return out
+}
+
+// pkQuirkOrder: is "directory dirName after its content contName" explained exactly by known finding D19? Yes when
+// the pinned evaluation (ancestor stack + MatchesUsingParentResults) differs from the whole-path evaluation somewhere
+// in this case, reproduces the archive's name sequence exactly, and the property's reference has the directory first.
+func pkQuirkOrder(c *PackCase, prop *pkRef, hs []*tar.Header, dirName, contName string) bool {
+	hasDot := false
+	for _, inc := range prop.includes {
+		if inc == "." {
+			hasDot = true
+		}
+	}
+	em := pkReference(c, pkBuildView(c), pkMode{chain: true, dot: c.ISD && hasDot, seenRaw: true})
+	if pkDebug {
+		var a, b []string
+		for _, e := range em.exp {
+			a = append(a, e.Name)
+		}
+		for _, h := range hs {
+			b = append(b, h.Name)
+		}
+		fmt.Fprintf(os.Stderr, "QUIRK unknown=%v disagree=%d\n em=%q\n ar=%q\n", em.unknown, em.disagree, a, b)
+	}
+	if em.unknown || em.disagree == 0 || len(em.exp) != len(hs) {
+		return false
+	}
+	for i := range hs {
+		if em.exp[i].Name != hs[i].Name {
+			return false
+		}
+	}
+	di, ci := -1, -1
+	for i, e := range prop.exp {
+		if e.Name == dirName && di < 0 {
+			di = i
+		}
+		if e.Name == contName && ci < 0 {
+			ci = i
+		}
+	}
+	return di >= 0 && ci >= 0 && di < ci
+}
+
+func pkHead(xs []string) []string {
+	if len(xs) > 5 {
+		return xs[:5]
+	}
+	return xs
+}
+
+// pkProperDescendant: rel path x lies strictly beneath rel path a.
+func pkProperDescendant(x, a string) bool {
+	if x == a {
+		return false
+	}
+	if a == "." {
+		return x != ".." && !strings.HasPrefix(x, "../")
+	}
+	return strings.HasPrefix(x, a+"/")
+}
+
+// pkGroupMtime: the world builder gives a hard-link group the times of its first name.
+func pkGroupMtime(c *PackCase, n *Node) int64 {
+	if n.Group == 0 {
+		return n.Mtime
+	}
+	best := n
+	for i := range c.Nodes {
+		if m := &c.Nodes[i]; m.Group == n.Group && m.Path < best.Path {
+			best = m
+		}
+	}
+	return best.Mtime
+}
+
+// pkInside: the source path as the jail sees it.
+func pkInside(c *PackCase) string {
+	rel, err := filepath.Rel(c.Root, c.Src)
+	if err != nil {
+		return "/"
+	}
+	if rel == "." {
+		return "/"
+	}
+	return "/" + rel
+}
+
+// pkHostVsInside compares what the source path names for a process outside the jail with what it names inside:
+// 1 = exists only outside, 2 = exists only inside, 3 = both exist but are different objects, 0 = same or neither.
+func pkHostVsInside(c *PackCase) int {
+	host := *c
+	host.Op = "tar"
+	hv := pkBuildView(&host)
+	_, hn, he := hv.resolve(c.Src, false)
+	jv := pkBuildView(c)
+	if jv == nil {
+		return 0
+	}
+	_, jn, je := jv.resolve(pkInside(c), false)
+	switch {
+	case he == pkOK && hn != nil && je != pkOK:
+		return 1
+	case he != pkOK && je == pkOK:
+		return 2
+	case he == pkOK && je == pkOK && hn != jn:
+		return 3
+	}
+	return 0
+}
+
+// ---------------------------------------------------------------- arena-side helpers (used by runPackJob)
+
+func pkSha(b []byte) string {
+	s := sha256.Sum256(b)
+	return hex.EncodeToString(s[:])
+}
+
+// pkSubSecond gives every object of the world a non-zero sub-second modification (and access) time, so that the
+// whole-second clause is observable. The seconds stay what the case says.
+func pkSubSecond(nodes []Node) error {
+	ns := append([]Node(nil), nodes...)
+	sort.SliceStable(ns, func(i, j int) bool { return ns[i].Path < ns[j].Path })
+	// same order as buildWorld (last to first), so the first name of a hard-link group decides, as there
+	for i := len(ns) - 1; i >= 0; i-- {
+		n := ns[i]
+		h := fnv.New32a()
+		h.Write([]byte(n.Path))
+		ns := int64(1 + h.Sum32()%999999998)
+		ts := []unix.Timespec{{Sec: n.Mtime, Nsec: ns}, {Sec: n.Mtime, Nsec: ns}}
+		if err := unix.UtimesNanoAt(unix.AT_FDCWD, n.Path, ts, unix.AT_SYMLINK_NOFOLLOW); err != nil {
+			return err
+		}
+	}
+	return nil
+}
+
+// pkDescribeDiff: which header fields of which entries differ between two produced streams.
+func pkDescribeDiff(b1, b2 []byte) string {
+	e1, _, err1 := parseTarStream(b1)
+	e2, _, err2 := parseTarStream(b2)
+	if err1 != nil || err2 != nil || len(e1) != len(e2) {
+		return fmt.Sprintf("DIFF -1:-:count(%d/%d)", len(e1), len(e2))
+	}
+	var items []string
+	for i := range e1 {
+		a, b := e1[i], e2[i]
+		fa, fb := a.fields(), b.fields()
+		names := []string{"type", "name", "linkname", "mode", "uid", "gid", "mtime", "size", "body", "maj", "min", "nx"}
+		for k := range fa {
+			if k < len(fb) && fa[k] != fb[k] {
+				f := "xattr"
+				if k < len(names) {
+					f = names[k]
+				}
+				items = append(items, fmt.Sprintf("%d:%s:%s", i, hx(a.Name), f))
+			}
+		}
+		if len(fa) != len(fb) {
+			items = append(items, fmt.Sprintf("%d:%s:xattrs", i, hx(a.Name)))
+		}
+	}
+	if len(items) == 0 {
+		return "DIFF -1:-:bytes-only"
+	}
+	return "DIFF " + strings.Join(items, " ")
+}
